@@ -1,0 +1,33 @@
+//go:build verif
+
+package authorization
+
+// Contracts for the deductive checker in /verif (comment-only; compiled only with -tags verif).
+// Lib specs: /verif/specs/c04/62_authz.spec (abstract grant store g_kind / g_exp / g_limited / g_limit).
+
+/*@
+// C04: an authorization is returned only for a grant that exists under (grantee, granter, msgURL) and has not expired
+func CheckAuthzExists
+    let key = gkey(addr_bytes(grantee), addr_bytes(granter), msgURL)
+    ensures err_iff: (result.2 == nil) == GLive(g_kind, g_exp, key, ctx)
+    ensures found: result.2 == nil ==> result.0 != nil && typeof(result.0) == g_kind[key] && result.1 == g_exp[key]
+    ensures stake: result.2 == nil && g_kind[key] == StakeTag() ==> unbox(result.0, "*github.com/cosmos/cosmos-sdk/x/staking/types.StakeAuthorization") != nil
+            && fresh(unbox(result.0, "*github.com/cosmos/cosmos-sdk/x/staking/types.StakeAuthorization"))
+            && stake_url(unbox(result.0, "*github.com/cosmos/cosmos-sdk/x/staking/types.StakeAuthorization").AuthorizationType) == msgURL
+            && (unbox(result.0, "*github.com/cosmos/cosmos-sdk/x/staking/types.StakeAuthorization").MaxTokens != nil) == g_limited[key]
+            && (g_limited[key] ==> fresh(unbox(result.0, "*github.com/cosmos/cosmos-sdk/x/staking/types.StakeAuthorization").MaxTokens)
+                && unbox(result.0, "*github.com/cosmos/cosmos-sdk/x/staking/types.StakeAuthorization").MaxTokens.Amount == g_limit[key])
+    ensures transfer: result.2 == nil && g_kind[key] == TransferTag() ==> unbox(result.0, "*github.com/cosmos/ibc-go/v7/modules/apps/transfer/types.TransferAuthorization") != nil
+            && const_auth_url(TransferTag()) == msgURL
+    ensures refused: result.2 != nil ==> result.0 == nil && result.1 == nil
+
+// C04: a non-nil stake authorization is returned exactly when a grant (granter -> grantee) for msgURL exists, has not expired,
+// is a StakeAuthorization and, if limited, its limit covers the amount; the returned copy carries the stored limit
+func CheckAuthzAndAllowanceForGranter
+    requires amount: amount != nil
+    let key = gkey(addr_bytes(grantee), addr_bytes(granter), msgURL)
+    ensures err_iff: (result.2 == nil) == (GLive(g_kind, g_exp, key, ctx) && g_kind[key] == StakeTag() && (g_limited[key] ==> amount.Amount <= g_limit[key]))
+    ensures found: result.2 == nil ==> result.0 != nil && fresh(result.0) && result.1 == g_exp[key] && stake_url(result.0.AuthorizationType) == msgURL
+            && (result.0.MaxTokens != nil) == g_limited[key] && (g_limited[key] ==> fresh(result.0.MaxTokens) && result.0.MaxTokens.Amount == g_limit[key])
+    ensures refused: result.2 != nil ==> result.0 == nil && result.1 == nil
+@*/
